@@ -47,7 +47,7 @@ def main():
     summary = []
     for seed in sys.argv[1:]:
         seed = seed.rstrip('/')
-        name = seed.replace('/tmp/seeds/', '').replace('/tmp/rev/', 'rev-').replace('/', '-')
+        name = ('rev-' if '/rev/' in seed else '') + os.path.basename(seed)
         meta = {}
         try: meta = json.load(open(os.path.join(seed, 'meta.json')))
         except Exception: pass
@@ -114,6 +114,12 @@ def main():
         sys.stdout.flush()
     shutil.rmtree(base, ignore_errors=True)
     sh(['git', '-C', '/repo', 'worktree', 'prune'])
-    json.dump(summary, open('/verif/seeded/SUMMARY.json', 'w'), indent=1)
+    old = []
+    try: old = json.load(open('/verif/seeded/SUMMARY.json'))
+    except Exception: pass
+    names = {r['name'] for r in summary}
+    merged = [r for r in old if r['name'] not in names] + summary
+    merged.sort(key=lambda r: r['name'])
+    json.dump(merged, open('/verif/seeded/SUMMARY.json', 'w'), indent=1)
 
 main()
